@@ -8,6 +8,7 @@ predicted place, include/import targets of referenced types are the files their 
 several spellings of the output directory.
 """
 import collections
+import json
 import os
 import random
 import re
@@ -42,6 +43,8 @@ def path_component_ok(lang, original, got):
         pred = None
     if os.sep in got or got in ("", ".", ".."):
         return False
+    if not getattr(lang, "enable_stropping", True):
+        return got == original      # configured off: components are taken as they are, everywhere alike
     if pred is None:
         return got == original or True
     if pred.why_bad(original, "path") is None and not pred.needs_encoding(original, "path"):
@@ -144,6 +147,30 @@ def walk_tree(ctx, ns, ts, out, lctx, witness):
     return ok
 
 
+FRESH_PATHS = r"""
+import sys, json, os
+sys.path.insert(0, %(verif)r)
+import pydsdl, nunavut
+from vlib import genrun
+dsdl, roots, root, lang, overrides = json.loads(sys.argv[1])
+types = pydsdl.read_namespace(os.path.join(dsdl, root), [os.path.join(dsdl, x) for x in roots if x != root], allow_unregulated_fixed_port_id=True)
+lctx = genrun.lang_context(lang, overrides=overrides)
+ns = nunavut.build_namespace_tree(types, os.path.join(dsdl, root), "outq", lctx)
+print(json.dumps({"%%s.%%d.%%d" %% (t.full_name, t.version.major, t.version.minor): os.path.relpath(os.path.normpath(str(p)), os.path.normpath(str(ns.output_folder)))
+                  for t, p in ns.get_all_datatypes()}))
+"""
+
+
+def fresh_paths(dsdl, roots, root, lang, overrides):
+    r = common.run([common.PY, "-c", FRESH_PATHS % dict(verif=common.VERIF), json.dumps([dsdl, roots, root, lang, overrides])], env=common.child_env(), timeout=300)
+    if r.returncode != 0:
+        return None
+    try:
+        return json.loads(r.stdout.strip().splitlines()[-1])
+    except Exception:
+        return None
+
+
 def part_a(ctx, nsets):
     R = random.Random("c11a/%s" % ctx.seed)
     d = ctx.sub("a")
@@ -162,9 +189,14 @@ def part_a(ctx, nsets):
                     out = R.choice(["out", os.path.join(d, "abs_out") + "/", "./o/../out", os.path.join(d, "x", "y")])
                     overrides = {}
                     if R.random() < 0.25:
-                        overrides["extension"] = R.choice([".hh", ".xyz", ".h.in"]) if False else R.choice([".hh", ".xyz"])
+                        overrides["extension"] = R.choice([".hh", ".xyz", ".gen.h", ".dsdl.hpp"])
                     if R.random() < 0.2:
                         overrides["namespace_file_stem"] = R.choice(["_", "nsx"])
+                    if lang != "html" and R.random() < 0.3:
+                        # consecutive contexts of one language with different stropping rules in this process
+                        overrides["stropping_prefix"] = R.choice(["zq_", "dsdl_", "_"])
+                    if lang != "html" and R.random() < 0.12:
+                        overrides["enable_stropping"] = False
                     lctx = genrun.lang_context(lang, overrides=overrides)
                     import nunavut
                     witness = dict(set=i, seed=ctx.seed, root=root, lang=lang, variant=["as parsed", "shuffled", "subset"][variant], out=out,
@@ -178,6 +210,22 @@ def part_a(ctx, nsets):
                     ctx.count("trees_walked")
                     if walk_tree(ctx, ns, ts, out, lctx, witness):
                         ctx.count("trees_ok")
+                    if (overrides and R.random() < 0.5) or R.random() < 0.08:
+                        # the path of a type is a function of type, language and configuration: a fresh process must agree
+                        here = {"%s.%d.%d" % (t.full_name, t.version.major, t.version.minor): os.path.relpath(os.path.normpath(str(p)), os.path.normpath(str(ns.output_folder)))
+                                for t, p in ns.get_all_datatypes()}
+                        fresh = fresh_paths(os.path.join(d, "dsdl"), roots, root, lang, overrides)
+                        ctx.count("fresh_process_path_maps")
+                        if fresh is None:
+                            ctx.count("fresh_process_failed")
+                        else:
+                            for k, rel in here.items():
+                                ctx.count("evaluations")
+                                if fresh.get(k) != rel:
+                                    ctx.refute(None, "path of %s is %s here (after earlier contexts in this process) but %s in a fresh process" % (k, rel, fresh.get(k)), witness)
+                                    break
+                            else:
+                                ctx.count("fresh_process_path_maps_agree")
                     ctx.distinct(("a", i, root, lang, variant, out, tuple(sorted(overrides.items()))))
         # the empty tree
         import nunavut
@@ -210,9 +258,17 @@ def part_b(ctx, nruns):
         real_out = os.path.join(sb, "real_parent", "outq") if spelling == "symlink" else os.path.join(sb, "work", "outq")
         extra = []
         ext = {"c": ".h", "cpp": ".hpp", "py": ".py", "html": ".html"}[lang]
-        if R.random() < 0.25:
-            ext = R.choice([".hh", ".xyz"])
+        if R.random() < 0.3:
+            ext = R.choice([".hh", ".xyz", ".gen.h", ".dsdl.hpp"])
             extra += ["--output-extension", ext]
+        cfg_over = {}
+        if lang != "html" and R.random() < 0.3:
+            cfg_over = R.choice([{"enable_stropping": False}, {"stropping_prefix": "zq_"}, {"enable_stropping": False}])
+            import yaml
+            cfgp = os.path.join(sb, "in", "cfg.yaml")
+            with open(cfgp, "w") as f:
+                yaml.safe_dump({"nunavut.lang." + lang: cfg_over}, f)
+            extra += ["--configuration", cfgp]
         if R.random() < 0.3 and lang in ("py", "html"):
             # the built-in C and C++ template sets have no Namespace/Any template: nnvg refuses the option there ("No template found"),
             # which is a refused configuration, not a mapping of types onto files
@@ -239,7 +295,7 @@ def part_b(ctx, nruns):
         seen_paths = {}
         for t in alltypes:
             cands = [f for f in files if f.endswith("%s_%d_%d%s" % ("", t.version.major, t.version.minor, ext)) and len(f.split(os.sep)) == len(t.name_components)]
-            lctx = genrun.lang_context(lang, overrides={"extension": ext} if "--output-extension" in extra else None)
+            lctx = genrun.lang_context(lang, overrides=dict(cfg_over, **({"extension": ext} if "--output-extension" in extra else {})) or None)
             from nunavut.lang._common import IncludeGenerator
             pred = IncludeGenerator.make_path(t, lctx.get_target_language(), ext).as_posix()
             ctx.count("type_files_checked")
